@@ -1,3 +1,4 @@
+#define VP_AMBIENT_ROUNDING 1 // results of this executor may not depend on the dynamic floating-point rounding mode (drv/vp.h)
 // C19 — integer square root, gcd/lcm, bit reversal, byte-order accessors.
 // Oracles: 128-bit arithmetic, binary gcd, bit loop, explicit byte layout.
 #include "../drv/enum.h"
